@@ -184,10 +184,15 @@ def registry():
         tag = "nsi_spreading" + ("[alpha]" if al else "")
         R.append(M(tag, "nsi_spreading", "n", (lambda net, ctx, _a=al: net.nsi_spreading(alpha=_a))))
     # histograms: only the bin bounds are functions of the n.s.i. degree range
+    # (the number of bins is int(k_max/k_min)+1; the ratio is prepended so that `compare` can leave
+    # out the inputs where it sits on an integer, i.e. on a jump of the bin count)
+    def _ratio(net):
+        k = net.nsi_degree()
+        return float(k.max() / k.min())
     R.append(M("nsi_degree_histogram[bins]", "nsi_degree_histogram", "bins",
-               lambda net, ctx: net.nsi_degree_histogram()[2]))
+               lambda net, ctx: [_ratio(net)] + list(net.nsi_degree_histogram()[2])))
     R.append(M("nsi_degree_cumulative_histogram[bins]", "nsi_degree_cumulative_histogram", "bins",
-               lambda net, ctx: net.nsi_degree_cumulative_histogram()[1]))
+               lambda net, ctx: [_ratio(net)] + list(net.nsi_degree_cumulative_histogram()[1])))
 
     # InteractingNetworks
     def two(m):
@@ -302,6 +307,11 @@ def compare(kind, r0, r1, origin, n0, ctx0, ctx1, rtol):
             if msg:
                 return "[%s] %s" % (k, msg)
         return None
+    if kind == "bins":
+        for r in (r0, r1):
+            if abs(r[0] - round(r[0])) < 1e-6:       # k_max/k_min on an integer: bin count jumps
+                return None
+        r0, r1 = r0[1:], r1[1:]
     if kind in ("g", "bins"):
         if _close(r0, r1, rtol):
             return None
@@ -696,7 +706,8 @@ RULE = (
     "isolated. A mismatch is discarded as ill-conditioned (counted in 'skipped') only if perturbing "
     "the ORIGINAL network's weights by tolerance*1e-5 relative (1e-14) moves the original value by "
     "more than a tenth of the tolerance, i.e. condition number > 1e4 (corrected variants near a zero "
-    "denominator, histogram bin-count jumps). Clauses: split / split-iterated (depth 1 / 2), "
+    "denominator); the histogram bin bounds are not compared where k_max/k_min is within 1e-6 of an "
+    "integer (the bin count int(k_max/k_min)+1 jumps there). Clauses: split / split-iterated (depth 1 / 2), "
     "-raises (exception on one side only), and three clauses for input classes on which the current "
     "code violates the property: split-unreachable-pairs (cross/internal closeness and cross average "
     "path length replace unreachable pairs by N-1), split-singleton-component (random-walk "
